@@ -156,7 +156,7 @@ def component_spec(rng, enc=False, max_len=600, oversize_ok=False):
     return {"desc": desc, "blob": blob, "alen": alen, "enc": bool(enc)}
 
 
-def bf3_spec(rng, max_comps=5, p_enc=0.0, max_len=600, oversize_ok=False):
+def bf3_spec(rng, max_comps=5, p_enc=0.0, max_len=600, oversize_ok=False, allow_many=True):
     ncomp = rng.choice([0, 1, 1, 1, 2, 2, 3, max_comps])
     comps = [component_spec(rng, enc=(rng.random() < p_enc), max_len=max_len,
                             oversize_ok=oversize_ok) for _ in range(ncomp)]
@@ -166,7 +166,7 @@ def bf3_spec(rng, max_comps=5, p_enc=0.0, max_len=600, oversize_ok=False):
     r = rng.random()
     if r < 0.03 and comps:
         spec["alias_first"] = True
-    elif r < 0.033:
+    elif r < 0.033 and allow_many:
         # a package with more than 255 components (directory entry indices beyond one byte)
         n = rng.randint(256, 270)
         spec["components"] = [{"desc": [], "blob": {"len": 1 + (i % 3), "fill": "rand", "tail0": 0, "s": i},
